@@ -12,7 +12,7 @@ def unusedVars (opName : Name) : List VarDef → List Bool → List RErr
     else errAt (str "Variable \"$" ++ v.var ++ str "\" is never used.") v.pos :: unusedVars opName vs us
   | _, _ => []
 
-def noUnusedVariablesStep (_ : Schema) (_ : QueryDoc) (e : Event) : List RErr :=
+def noUnusedVariablesStep (_ : SV) (_ : QueryDoc) (e : Event) : List RErr :=
   match e.p with
   | .operation op used => unusedVars op.name op.vars used
   | _ => []
